@@ -70,6 +70,15 @@ async fn within<F: std::future::Future>(f: F) -> Result<F::Output, String> {
     tokio::time::timeout(BOUND, f).await.map_err(|_| "not resolved within 30 s".to_string())
 }
 
+/// poll a future exactly once
+async fn futures_util_poll_once<F: std::future::Future + Unpin>(mut f: F) -> Option<F::Output> {
+    std::future::poll_fn(move |cx| match std::pin::Pin::new(&mut f).poll(cx) {
+        std::task::Poll::Ready(v) => std::task::Poll::Ready(Some(v)),
+        std::task::Poll::Pending => std::task::Poll::Ready(None),
+    })
+    .await
+}
+
 fn is_done<T>(h: &mut tokio::task::JoinHandle<T>) -> bool {
     h.is_finished()
 }
@@ -114,6 +123,28 @@ async fn scenario(name: &str) -> Result<String, String> {
             }
             let t0 = Instant::now();
             within(&mut sf).await.map_err(|e| format!("stop(true) after release: {e}"))?.ok();
+            within(&mut st).await.map_err(|e| format!("Server future: {e}"))?.ok();
+            Ok(format!("after_release_ms={}", t0.elapsed().as_millis()))
+        }
+        // the future returned by stop(true) is dropped without ever being polled (or after one poll): the stop still waits
+        "graceful_dropped_unpolled" | "graceful_dropped_polled" => {
+            let (srv, addr) = build(1, 30, false);
+            let h = srv.handle();
+            let mut st = actix_rt::spawn(srv);
+            let c1 = held_conn(addr).await?;
+            if name == "graceful_dropped_unpolled" {
+                drop(h.stop(true));
+            } else {
+                let mut f = Box::pin(h.stop(true));
+                let _ = futures_util_poll_once(f.as_mut()).await;
+                drop(f);
+            }
+            tokio::time::sleep(Duration::from_millis(1500)).await;
+            if is_done(&mut st) {
+                return Err("the Server future resolved while a connection was in progress (graceful stop whose future was dropped)".into());
+            }
+            drop(c1);
+            let t0 = Instant::now();
             within(&mut st).await.map_err(|e| format!("Server future: {e}"))?.ok();
             Ok(format!("after_release_ms={}", t0.elapsed().as_millis()))
         }
